@@ -192,7 +192,9 @@ def run_kernels(case, obs):
     # grouped sums (index arrays up to and beyond 1e5, empty arrays)
     k = int(rng.integers(0, 60))
     top = int(rng.choice([5, 50, 99999, 100000, 100001, 250000]))
-    idx = rng.integers(0, top + 1, k).astype(np.int64)
+    # index arrays come from table columns of different integer types (junction columns are uint32)
+    idx = rng.integers(0, top + 1, k).astype([np.int64, np.int32, np.uint32][int(rng.integers(3))])
+    obs.count("grouped_sum_index_dtype_" + str(idx.dtype))
     if k and rng.random() < 0.5:
         idx[0] = top
     v1, v2 = rng.uniform(-5, 5, k), rng.uniform(0, 1, k)
@@ -202,6 +204,19 @@ def run_kernels(case, obs):
         obs.count("kernel_pairs_grouped_sum")
         if top >= 100000:
             obs.count("grouped_sum_large_index")
+        # reference: plain dictionary accumulation (neither engine)
+        ref = {}
+        for j, u, w in zip(idx.tolist(), v1.tolist(), v2.tolist()):
+            r_ = ref.setdefault(j, [0.0, 0.0])
+            r_[0] += u
+            r_[1] += w
+        keys = sorted(ref)
+        want = [np.array(keys, float), np.array([ref[j][0] for j in keys]), np.array([ref[j][1] for j in keys])]
+        for eng, outs in (("numpy", a), ("numba", b)):
+            for i, (x, y) in enumerate(zip(outs, want)):
+                if not same(np.asarray(x, float), y, rtol=1e-12, atol=1e-12):
+                    obs.violate("grouped_sum_wrong", "grouped sum (%s engine, index dtype %s): output %d differs from plain accumulation"
+                                % (eng, idx.dtype, i), engine=eng, got=np.asarray(x).tolist()[:6], expected=y.tolist()[:6], **desc)
         for i, (x, y) in enumerate(zip(a, b)):
             if not same(x, y, rtol=1e-12, atol=1e-13):
                 obs.violate("twin_kernels_differ_grouped_sum", "grouped sum output %d differs (max index %d, %d values)" % (i, top, k),
@@ -223,6 +238,8 @@ def run_engines(case, obs):
                                     features=[("valves", "pi_valves"), ("pump", "compressor", "mass_storage"),
                                               ("flow_control", "press_control", "heat_exchanger", "multi_grid")][int(rng.integers(3))],
                                     max_sections=4, label_scheme=str(rng.choice(["contiguous", "gaps", "large"])))
+        if rng.random() < 0.5:
+            spec = netgen.permute_rows(spec, rng)      # e.g. several loads of one junction in non-adjacent rows
         mode = "hydraulics"
         opts = dict(netgen.TIGHT, friction_model=str(rng.choice(["nikuradse", "colebrook", "swamee-jain"])),
                     nonlinear_method=str(rng.choice(["constant", "automatic"])), tolerance_colebrook=1e-12, max_iter_colebrook=200)
